@@ -131,6 +131,7 @@ Run(q, s, n, sawCert) ==
 (***************************************************************************)
 (* Deviation scripts                                                       *)
 (***************************************************************************)
+KeyChanging == {"SH", "FIN"}
 \* edits: <<"skip",k,0>>, <<"dup",k,0>>, <<"swap",k,0>> (k with k+1, same flight),
 \*        <<"ins",k,t>> fabricated message of type t before position k (k = Len+1: at the end),
 \*        <<"cpy",k,j>> a copy of the earlier message j before position k
@@ -140,12 +141,18 @@ Edits(h, fl) ==
   \cup {<<"swap", k, 0>> : k \in {j \in 1..(Len(h) - 1) : fl[j] = fl[j + 1]}}
   \cup {<<"ins", k, t>> : k \in 2..(Len(h) + 1), t \in Fab}
   \cup {e \in {<<"cpy", k, j>> : k \in 3..(Len(h) + 1), j \in 1..(Len(h) - 1)} : e[3] < e[2] - 1}
+  \* TLS 1.3 (RFC 8446 sec. 5.1): a handshake message immediately before a key change must end its record;
+  \* "glue" = message k is followed in the same record by the first bytes of a further handshake message
+  \cup (IF Tls13 THEN {<<"glue", k, 0>> : k \in {j \in 1..Len(h) : h[j] \in KeyChanging}} ELSE {})
 ApplyTo(h, e, x) ==    \* x = element to insert for "ins"/"cpy"
   CASE e[1] = "skip" -> SubSeq(h, 1, e[2] - 1) \o SubSeq(h, e[2] + 1, Len(h))
     [] e[1] = "dup"  -> SubSeq(h, 1, e[2]) \o <<h[e[2]]>> \o SubSeq(h, e[2] + 1, Len(h))
     [] e[1] = "swap" -> SubSeq(h, 1, e[2] - 1) \o <<h[e[2] + 1], h[e[2]]>> \o SubSeq(h, e[2] + 2, Len(h))
     [] e[1] \in {"ins", "cpy"} -> SubSeq(h, 1, e[2] - 1) \o <<x>> \o SubSeq(h, e[2], Len(h))
-Apply(h, e) == ApplyTo(h, e, IF e[1] = "ins" THEN e[3] ELSE IF e[1] = "cpy" THEN h[e[3]] ELSE "-")
+    [] e[1] = "glue" -> SubSeq(h, 1, e[2] - 1) \o <<x>> \o SubSeq(h, e[2] + 1, Len(h))
+\* "SPAN" (a message spanning a key change) is admissible in no state
+Apply(h, e) == ApplyTo(h, e, IF e[1] = "ins" THEN e[3] ELSE IF e[1] = "cpy" THEN h[e[3]]
+                             ELSE IF e[1] = "glue" THEN "SPAN" ELSE "-")
 ApplyFl(fl, e) == ApplyTo(fl, e, IF e[2] > Len(fl) THEN fl[Len(fl)] ELSE fl[e[2]])
 
 Init == /\ fi \in 1..NF
